@@ -114,8 +114,9 @@ def convertSteps (ndigits : Int) (noneGood : Bool) : DocM Unit := do
     reports violations -/
 def topicosvg (ndigits : Int) (allowText dropUnsupported noneGood : Bool) : DocM Unit :=
   convertSteps ndigits noneGood >>= fun _ => gateStep allowText dropUnsupported >>= fun _ =>
-    -- the elements the gate dropped may have been the only users of a gradient
-    if dropUnsupported then removeOrphansAfterPruning else pure ()
+    -- the elements the gate dropped may have been the only users of a gradient, or have left a group underfull:
+    -- the closing loop runs once more
+    if dropUnsupported then (elements >>= fun l => pruneLoop ndigits (l.length + 2)) else pure ()
 
 /-- `toetree()` / `tostring()`: flush and hand out the tree -/
 def toTree : DocM Node := do
